@@ -583,3 +583,10 @@ Definition bench_loop_cal (c : cfg) (t0 calib : N) (hist : list round_obs) : res
     sample", i.e. from the clock after the calibration. *)
 Definition c04_cal_sb (c : cfg) (t0 calib : N) (hist : list round_obs) (o : seen) : bool :=
   c04_sb c (t0 + calib) hist o.
+
+(** Seconds given as plain numbers ([IntoDuration] for u64 / f64, used by the
+    attributes' [min_time = ..] / [max_time = ..]): a whole number [u] of seconds
+    is exactly [u] s; a decimal with at most 9 fractional digits is that many
+    nanoseconds.  [ns]: the exact value; [secs], [nanos]: the resulting [Duration]. *)
+Definition c04_dur_sb (ns secs nanos : N) : bool :=
+  (nanos <? 1000000000) && (secs * 1000000000 + nanos =? ns).
